@@ -25,6 +25,7 @@ RULE = ("full product functional x representation, with leaf-derivation {leaf, d
         "can hold non-Parameters), a seeded requires-grad mask over the three leaves (at least one True), dimension d in {2,3,4,7} (7 > 5 makes the implicit backward use a Krylov solver through the Jacobian operator); "
         "non-trivial = the representation differs from 'pure', both runs returned, at least one first-order and one second-order "
         "leaf gradient was non-zero and compared")
+RULE += ('; group history (vf/c09_extra.py): sibling made once and reused after requires_grad flags changed (3 stages), failing call followed by a normal one, holders rebound between two calls with one backward through both')
 MIN_NONTRIVIAL = {"quick": 900, "thorough": 5000}
 ASSUMPTIONS = ["contractive / convex problem families (|s|<=0.5, |W|~0.5) so every iterative method converges to 1e-11",
                "mh sampler: both runs start from the same torch seed (forward and backward), so they see the same chain",
